@@ -11,6 +11,11 @@ NOTE = ("Trusted base: TLC 1.8 + CommunityModules Json; the concretiser and the 
 claimed = {
  "C03": ("DESIGN.md §6 C03", "TLC enumerates every shape x struct value of family 'empty' (spec/MC_SessEmpty); each behaviour SetObj;NewEmpty;CopyTo is replayed in the real generated code and Trace.tla judges clauses C03.nopanic/noerror/present/typed/nounknown/convertible on the recorded states. Exhaustive within the shape / value bounds, not unbounded."),
  "C04": ("DESIGN.md §6 C04", "Same enumeration continued with FreshObj;CopyFrom; clause C04.roundtrip compares the normal forms (spec/Contract.tla NF) of the original and the read-back REAL struct, per field."),
+ "C05": ("DESIGN.md §6 C05", "Family 'reset' (spec/MC_SessReset): TLC enumerates every conforming object (every leaf null / unknown / known zero / known non-zero, containers null / unknown / empty / filled, hand-built payloads under null / unknown) x prior target content; SetObj;LoadRaw;CopyFrom is replayed in the real code; clauses C05.noerror, C05.reset.*, C05.excluded_untouched per attribute and the pairwise clauses C05.history_free / C05.payload_free (trace validator remembers, per payload-free skeleton of the input, the first real result)."),
+ "C06": ("DESIGN.md §6 C06", "Families 'badfrom' (every single corruption - deletion, wrong Go type, nil interface, nil Attrs / Elems - of conforming objects at any depth; thorough: pairs) and 'badto' (every attribute type removed at top level, nested object, list / map element type; thorough: pairs) enumerated by TLC, replayed in the real code; clauses nopanic, missing_once (set of reached missing attributes = set of diagnostics, by path), conversion, rest_copied / rest_written."),
+ "C07": ("DESIGN.md §6 C07", "Families 'empty' (CopyTo with every active branch or none) and 'reset' (CopyFrom with every mix of known / null / unknown branch attributes x every prior holder state); clauses C07.to.inactive_null, C07.to.active_iff_nonzero, C07.from.single, C07.from.none at every nesting level."),
+ "C08": ("DESIGN.md §6 C08", "Family 'echo': TLC enumerates the plans inside the property's quantifier (C08Plan); LoadPlan goes through the framework's own decoder; LoadPlan;FreshObj;CopyFrom;CopyTo;FreshObj;CopyFrom replayed in the real code; clauses C08.noerror, nounknown, known_unchanged, coll_shape, redecode."),
+ "C09": ("DESIGN.md §6 C09", "Family 'refresh': all pairs (thorough: triples) of struct values per shape: SetObj v1;NewEmpty;CopyTo;SetObj v2;CopyTo;CopyTo replayed in the real code; clauses C09.noerror, nounknown, list.len, list.elems, map.keys, map.vals, scalar.follow, ptr.null_iff_nil, msg.nil_null, idempotent."),
  "C20": ("DESIGN.md §6 C20", "Same traces as C03; clauses C20.* state null <=> absent per attribute outside list/map elements at every depth, evaluated by TLC on the real post-state."),
 }
 technique = "explicit TLA+ spec (Session/CopyTo/CopyFrom/Contract), TLC exhaustive enumeration as test generator, replay in the real generated code, TLC trace validation of the recorded states"
